@@ -246,18 +246,27 @@ func (g *vfGen) genC08() {
 		}
 	}
 	// deep nesting up to and around the cap, arrays, objects and mixed
-	for _, depth := range []int{10, 100, 2049, 4095, 4096, 4097} {
+	depths := []int{10, 100, 4096, 4097}
+	if g.thorough {
+		depths = []int{10, 100, 2049, 4095, 4096, 4097}
+	}
+	for _, depth := range depths {
 		d := strings.Repeat("[", depth) + strings.Repeat("]", depth)
 		g.emit(vfOp("jany", []byte(d)))
 		if depth <= 4096 {
 			o := strings.Repeat(`{"k":`, depth-1) + "{}" + strings.Repeat("}", depth-1)
 			g.emit(vfOp("jany", []byte(o)))
-			if depth%2 == 0 {
+			if depth%2 == 0 && (g.thorough || depth <= 100) {
 				m := strings.Repeat(`[{"k":`, depth/2) + "1" + strings.Repeat("}]", depth/2)
 				g.emit(vfOp("jany", []byte(m)))
 			}
-			g.emit(vfOp("walk", []byte(o), 0))
-			g.emit(vfOp("walk", []byte(o), len(o)/2))
+			// through Detect (the Lean side evaluates every JSON-family check on it: seconds per deep document)
+			if g.thorough || depth <= 100 || depth == 4096 {
+				g.emit(vfOp("walk", []byte(o), 0))
+			}
+			if g.thorough || depth <= 100 {
+				g.emit(vfOp("walk", []byte(o), len(o)/2))
+			}
 		}
 	}
 	// the witnesses of the nested-failure defect
